@@ -18,9 +18,13 @@ def main():
     ap.add_argument("--tier", default=os.environ.get("VERIF_TIER", "quick"), choices=["quick", "thorough"])
     ap.add_argument("--seed", type=int, default=int(os.environ.get("VERIF_SEED", "1")))
     ap.add_argument("--replay")
+    ap.add_argument("--selftest", action="store_true")
     a = ap.parse_args()
     from harness import checks, tlc
     try:
+        if a.selftest:
+            from harness import selftest
+            sys.exit(selftest.selftest(a.prop))
         if a.replay:
             from harness import replays
             sys.exit(replays.replay_file(a.prop, a.replay))
